@@ -125,7 +125,11 @@ def run_case(case, res):
     f = gen.decode(case["f"])
     typed = case["cls"] == "typed"
     t = (TypedTree if typed else Tree)("TITLE")
-    if case.get("lab") == "eqsib":
+    if case.get("lab") == "clones":
+        # the same data below different parents, also below one of its own occurrences (a clone inside its clone's branch)
+        labs = gen.clone_labeling(rng_for(case.get("pseed", 0), "c16-clones", case["f"]), f, ["a", "b", "c"]) or [f"n{i}" for i in range(gen.size(f))]
+        nodes = gen.build(t, f, lambda i: labs[i], kind=(lambda i: "k") if typed else None)
+    elif case.get("lab") == "eqsib":
         # siblings holding equal data under distinct ids; renderings stay unique through the id
         nodes = gen.build(t, f, lambda i: "x", kind=(lambda i: "k") if typed else None, data_id=lambda i: f"n{i}")
     else:
@@ -397,6 +401,8 @@ def run_shard(spec, res):
                             run_case({"cls": cls, "f": gen.code(f), "start": start, "variant": v}, res)
                             if n >= 2 and n <= 5 and cls == "plain":
                                 run_case({"cls": cls, "f": gen.code(f), "start": start, "variant": v, "lab": "eqsib"}, res)
+                            if n >= 3 and n <= 6:
+                                run_case({"cls": cls, "f": gen.code(f), "start": start, "variant": v, "lab": "clones", "pseed": k % 3}, res)
                             if 1 <= n <= 5 and (k // NSHARDS + start) % 2 == 0:
                                 run_case({"cls": cls, "f": gen.code(f), "start": start, "variant": v, "prelude": True, "pseed": k}, res)
                 if res.expired():
@@ -411,7 +417,7 @@ def run_shard(spec, res):
             for start in [-1] + rng.sample(range(n), min(n, 4)):
                 for v in variants_for(start):
                     run_case({"cls": rng.choice(["plain", "typed"]), "f": gen.code(f), "start": start, "variant": v,
-                              "lab": rng.choice(["uniq", "eqsib"]), "prelude": rng.random() < 0.4, "pseed": rng.randrange(10**6)}, res)
+                              "lab": rng.choice(["uniq", "eqsib", "clones", "clones"]), "prelude": rng.random() < 0.4, "pseed": rng.randrange(10**6)}, res)
             if res.expired():
                 break
 
